@@ -575,7 +575,8 @@ MHD_pool_reallocate (struct MemoryPool *pool,
       if (! shrinking)
       {                               /* Grow in-place, check for enough space. */
         if ( (new_apos > pool->end) ||
-             (new_apos < pool->pos) ) /* Value wrap */
+             (new_apos < pool->pos) || /* Value wrap */
+             (new_size > pool->end - old_offset) ) /* Value wrap */
           return NULL;                /* No space */
       }
       /* Resized in-place */
